@@ -126,7 +126,7 @@ def all_loops(run, F, E):
 
 
 def run(run):
-    flow_rules.flow_obligations(run, {'C02.d', 'C01.a', 'C03.a'})
+    run.guard('flow obligations', flow_rules.flow_obligations, run, {'C02.d', 'C01.a', 'C03.a'})
     # rename the flow obligations: for C04 they are clause C04.c
     for o in run.obligations:
         if o['rule'] in ('C02.d', 'C01.a', 'C03.a'):
@@ -147,7 +147,7 @@ def run(run):
             run.require(F.unknown == 0, 'unknown AST nodes')
             E = effects.Effects(F)
             run.count('fact units')
-            substitution_loops(run, F, E, F.label())
+            run.guard('substitution loops', substitution_loops, run, F, E, F.label())
             facts.drop(F)
             cfgmod.clear_cache()
     for c in facts.configs(run.tier):
@@ -155,9 +155,9 @@ def run(run):
             F = facts.load('w_core', c, v)
             E = effects.Effects(F)
             run.count('fact units')
-            substitution_loops(run, F, E, F.label())
-            all_loops(run, F, E)
-            c02.requested_writers(run, F, E)
+            run.guard('substitution loops', substitution_loops, run, F, E, F.label())
+            run.guard('all loops', all_loops, run, F, E)
+            run.guard('requested writers', c02.requested_writers, run, F, E)
             facts.drop(F)
             cfgmod.clear_cache()
     for o in run.obligations:
